@@ -6,6 +6,7 @@ import (
 	"encoding/json"
 	"errors"
 	"fmt"
+	"sort"
 	"strings"
 	"testing"
 
@@ -580,5 +581,108 @@ func TestPropStepLists(t *testing.T) {
 		recLists.MaybeSample(nt, func() any {
 			return map[string]any{"steps": len(list), "unknown_type": nUnknownType, "failed_inference": nInference, "unknown_in_groups": inGroup, "head": text[:min(len(text), 300)]}
 		})
+	})
+}
+
+// ---------------------------------------------------------------------------
+// Ill-typed contents. The rule picks the kind from `type` / the keys present; contents that do not
+// fit that kind make the step an unknown step (with a warning) - they never make it a step of ANOTHER
+// known kind, however many other families' keys are present.
+
+var illTyped = [][2]string{
+	{"env", `"nope"`}, {"env", `[1, 2]`}, {"key", `["a", "b"]`}, {"label", `{"a": "b"}`}, {"matrix", `5`}, {"matrix", `"x"`},
+	{"cache", `5`}, {"signature", `7`}, {"command", `{"a": "b"}`}, {"commands", `[["a"]]`}, {"commands", `{"a": 1}`},
+	{"plugins", `42`}, {"plugins", `"docker"`}, {"plugins", `[42]`}, {"plugins", `[["x"]]`}, {"steps", `5`}, {"steps", `"wait"`}, {"steps", `{"a": 1}`},
+	{"name", `[1]`}, {"id", `{"x": 1}`}, {"identifier", `[[]]`},
+}
+
+var recIll = ev.New("TestPropIllTypedContentsNeverChangeKind", "random rows of the rule table (any subset of the ten kind-determining keys, any `type` value) in which one or two keys carry a value of the wrong shape for the kind the rule picks (env: a string, key: a list, matrix: 5, plugins: 42, commands: a list of lists, steps: 5, ...), keys in random order, YAML and JSON: the step is either the kind the rule says (when the wrong-shaped key means nothing to that kind) or an unknown step reported by a warning - never another known kind, never silently; non-trivial = keys of >= 2 families and the outcome is an unknown step; distinct by document text")
+
+func TestPropIllTypedContentsNeverChangeKind(t *testing.T) {
+	ev.Check(t, 3000, 150000, func(t *rapid.T) {
+		mask := rapid.IntRange(0, 1<<len(kindKeys)-1).Draw(t, "mask")
+		if rapid.Bool().Draw(t, "sparse") {
+			mask &= rapid.IntRange(0, 1<<len(kindKeys)-1).Draw(t, "mask2")
+		}
+		typ := rapid.SampledFrom(typeValues).Draw(t, "type")
+		vals := map[string]string{}
+		has := map[string]bool{}
+		for i, k := range kindKeys {
+			if mask&(1<<i) != 0 {
+				has[k] = true
+				vals[k] = keyValueJSON[k]
+			}
+		}
+		for i, c := 0, rapid.IntRange(1, 2).Draw(t, "nill"); i < c; i++ {
+			ill := rapid.SampledFrom(illTyped).Draw(t, "ill")
+			vals[ill[0]] = ill[1]
+			for _, k := range kindKeys {
+				if k == ill[0] {
+					has[k] = true
+				}
+			}
+		}
+		if typ != "<absent>" {
+			b, _ := json.Marshal(typ)
+			vals["type"] = string(b)
+		}
+		var ks []string
+		for k := range vals {
+			ks = append(ks, k)
+		}
+		sort.Strings(ks)
+		ks = rapid.Permutation(ks).Draw(t, "order")
+		var b strings.Builder
+		b.WriteString(`{"steps": [{`)
+		for i, k := range ks {
+			if i > 0 {
+				b.WriteString(", ")
+			}
+			kb, _ := json.Marshal(k)
+			b.Write(kb)
+			b.WriteString(": " + vals[k])
+		}
+		b.WriteString(`}]}`)
+		text := b.String()
+		if rapid.Bool().Draw(t, "asyaml") {
+			var n yaml.Node
+			if err := yaml.Unmarshal([]byte(text), &n); err != nil {
+				t.Fatalf("harness: %v", err)
+			}
+			yb, err := yaml.Marshal(&n)
+			if err != nil {
+				t.Fatalf("harness: %v", err)
+			}
+			text = string(yb)
+		}
+		wk, _ := expected(func(k string) bool { return has[k] }, typ, typ != "<absent>")
+		p, err := pipeline.Parse(strings.NewReader(text))
+		if err != nil && !warning.Is(err) {
+			recIll.Excluded("hard error (permitted for ill-typed documents)")
+			return
+		}
+		if p == nil || len(p.Steps) != 1 {
+			t.Fatalf("Parse returned %d steps, want 1 (err %v)\n%s", len(p.Steps), err, text)
+		}
+		got := kindOf(p.Steps[0])
+		switch {
+		case got == wk:
+			if wk != "unknown" && err != nil {
+				t.Fatalf("step kept its kind %s but Parse warns: %v\n%s", wk, err, text)
+			}
+		case got == "unknown":
+			if err == nil {
+				t.Fatalf("the step fell back to an unknown step but no warning was returned\n%s", text)
+			}
+		default:
+			t.Fatalf("contents that do not fit the kind the rule picks (%s) turned the step into a %s (err %v)\n%s", wk, got, err, text)
+		}
+		fams := map[int]bool{}
+		for k := range has {
+			fams[family(k)] = true
+		}
+		nt := len(fams) >= 2 && got == "unknown"
+		recIll.Case(ev.HashStr(text), nt, "outcome="+got, "rule="+wk)
+		recIll.MaybeSample(nt, func() any { return text })
 	})
 }
